@@ -19,22 +19,30 @@ var ErrInjected = errors.New("injected I/O fault")
 
 // World owns the switches shared by FS and Meta.
 type World struct {
-	Armed       bool // crash points enabled
-	Crashed     bool
-	Faults      int  // remaining injected faults
-	Sticky      bool // a fault repeats on every later call of the same kind until ClearFaults
-	stuck       map[string]bool
-	Calls       int
-	CrashAt     string // label of the call at which the crash was taken
-	FaultLog    []string
-	NoCrashIn   map[string]bool
-	SchedPoints bool // every environment call is a schedule point (schedule harnesses)
+	Armed        bool // crash points enabled
+	Crashed      bool
+	Faults       int  // remaining injected faults
+	Sticky       bool // a fault repeats on every later call of the same kind until ClearFaults
+	stuck        map[string]bool
+	Calls        int
+	CrashAt      string // label of the call at which the crash was taken
+	FaultLog     []string
+	NoCrashIn    map[string]bool
+	SchedPoints  bool // every environment call is a schedule point (schedule harnesses)
+	CrashAtReads bool // also take crash points before read-only calls (redundant: same disk state)
 }
 
 func NewWorld() *World { return &World{stuck: map[string]bool{}} }
 
 // point is called at the start of every environment call.
-func (w *World) point(label string) {
+func (w *World) point(label string) { w.pointM(label, true) }
+
+// rpoint is point for calls that do not modify anything durable (reads, opens,
+// listings): a crash before such a call leaves exactly the disk state of a crash
+// before the next modifying call, so no separate crash point is needed.
+func (w *World) rpoint(label string) { w.pointM(label, false) }
+
+func (w *World) pointM(label string, modifies bool) {
 	if w.SchedPoints {
 		vrt.Sched("env") // a place where the schedule exploration may switch goroutines
 	}
@@ -43,7 +51,7 @@ func (w *World) point(label string) {
 		// the process is gone: nothing after the crash may happen
 		vrt.Exit()
 	}
-	if w.Armed && vrt.Bool("crash") {
+	if w.Armed && (modifies || w.CrashAtReads) && vrt.Bool("crash") {
 		w.Crashed = true
 		w.CrashAt = label
 		vrt.Exit()
@@ -160,7 +168,7 @@ func (fs *FS) Put(name string, data []byte) {
 }
 
 func (fs *FS) ListDir(dir string) ([]string, error) {
-	fs.W.point("ListDir")
+	fs.W.rpoint("ListDir")
 	if fs.W.fault("list") {
 		return nil, ErrInjected
 	}
@@ -201,7 +209,7 @@ func (fs *FS) Delete(dir, name string) error {
 }
 
 func (fs *FS) OpenReader(dir, name string) (types.ReadableFile, error) {
-	fs.W.point("OpenReader " + name)
+	fs.W.rpoint("OpenReader " + name)
 	if fs.W.fault("open") {
 		return nil, ErrInjected
 	}
@@ -215,7 +223,7 @@ func (fs *FS) OpenReader(dir, name string) (types.ReadableFile, error) {
 }
 
 func (fs *FS) OpenWriter(dir, name string) (types.WritableFile, error) {
-	fs.W.point("OpenWriter " + name)
+	fs.W.rpoint("OpenWriter " + name)
 	if fs.W.fault("open") {
 		return nil, ErrInjected
 	}
@@ -273,7 +281,7 @@ func (h *handle) WriteAt(p []byte, off int64) (int, error) {
 }
 
 func (h *handle) ReadAt(p []byte, off int64) (int, error) {
-	h.fs.W.point("ReadAt " + h.f.name)
+	h.fs.W.rpoint("ReadAt " + h.f.name)
 	if h.closed {
 		return 0, os.ErrClosed
 	}
@@ -445,7 +453,7 @@ func copyState(s types.PersistentState) types.PersistentState {
 }
 
 func (m *Meta) Load(dir string) (types.PersistentState, error) {
-	m.W.point("Meta.Load")
+	m.W.rpoint("Meta.Load")
 	m.CallLog = append(m.CallLog, "Load")
 	if m.W.fault("meta-load") {
 		return types.PersistentState{}, ErrInjected
@@ -479,7 +487,7 @@ func eq(a, b []byte) bool {
 }
 
 func (m *Meta) GetStable(key []byte) ([]byte, error) {
-	m.W.point("Meta.GetStable")
+	m.W.rpoint("Meta.GetStable")
 	m.CallLog = append(m.CallLog, "GetStable")
 	if m.W.fault("meta-get") {
 		return nil, ErrInjected
